@@ -13,7 +13,7 @@ Extraction "model.ml"
   Engine.run Engine.exit_status EngineFaults.run_f
   Wire.should_compress_smart Wire.sniff_receive_file Wire.sniff_apply_delta Sparse.receive_sparse Sparse.detect Sparse.pack
   Verify.verify Verify.verify_exit
-  Links.sync_link Links.wrote_through Links.link_event Links.sync_any Xattr.xstep Xattr.xinit Xattr.observe_attrs
+  Links.sync_link Links.wrote_through Links.link_event Links.dry_link_event Links.sync_any Xattr.xstep Xattr.xinit Xattr.observe_attrs
   Temp.temp_name Temp.temp_path Temp.with_extension Temp.pinned_temp_path Temp.run_tasks Temp.fpath_eqb
   Crash.crash_state Crash.program_ok Crash.replans Crash.uses_temp Crash.rerun Crash.holds_source
   Caches.db_lookup Caches.db_store Caches.dc_update Caches.dc_dir_mtime Caches.dc_empty Caches.plan_resume Engine.mtime_matches.
